@@ -56,6 +56,8 @@ def build_cases(tier, seed):
             cases.append(scripth.Case(p, tag='units-%d' % k, doms=doms))
     # `get` in every unit mode (symbolic raw states; concrete ones for rgb)
     cases += shapes.get_cases(scripth.Case)
+    # two-operator expressions and operator mixes in conditions, used in commands
+    cases += shapes.expression_cases(scripth.Case)
     if tier == 'thorough':
         for p in shapes.sample(shapes.general_program(3, depth=2, vocab='core'), 5000, seed + 17):
             k += 1
@@ -64,13 +66,33 @@ def build_cases(tier, seed):
                    'seeded_or_sampled': len(cases) - n_core - n_full1, 'of_which_nested_loop_shapes': 120 if tier == 'quick' else 2500}
 
 
+# variables that spell a VM register which is not a language keyword: a printf field shows the variable, whatever its value
+NAMED_FORMS = [
+    ('assign power 0 on all printf "{power}"', ['0']),
+    ('assign power 3 off all printf "{power}"', ['3']),
+    ('assign result 0 define f begin return 5 end assign q [f] printf "{result} {q}"', ['0 5']),
+    ('assign name "" on "A" printf "[{name}]"', ['[]']),
+    ('assign Hue 0 hue 120 printf "{Hue} {hue}"', ['0 120']),
+    ('define f with power pc begin printf "{power} {pc}" end on all f 0 {1 > 2}', ['0 False']),
+    ('assign first_zone 0 set "Z" zone 2 4 printf "{first_zone}"', ['0']),
+]
+
+
+def named_worker(args):
+    res = report.WorkResult('printf fields named like internal registers')
+    common.fixed_scripts(res, 'named-forms', NAMED_FORMS)
+    res.sample({'scripts': [t for t, _ in NAMED_FORMS]})
+    return res
+
+
 def run(tier, seed):
     t0 = time.time()
     cases, counts = build_cases(tier, seed)
     budget = common.tier_budget(tier, 70, 900)
     items = [{'case': c, 'timeout_ms': 4000, 'max_paths': 600 if tier == 'quick' else 3000,
               'budget_s': 8 if tier == 'quick' else 120} for c in cases]
-    results, skipped = report.run_pool(common.script_worker, items, budget_s=budget)
+    items.insert(0, {'named': True})
+    results, skipped = report.run_pool(lambda a: named_worker(a) if 'named' in a else common.script_worker(a), items, budget_s=budget)
     return report.finish(
         PROP, tier, seed, 'exploration', results, skipped,
         rule='each work item is one program shape (AST with symbolic numeric literals); every feasible '
